@@ -630,6 +630,9 @@ func (e *Engine) discharge(workdir string, timeout int) {
 			if r.Status == "unsat" || r.Status == "sat" {
 				r.Secs += o.Result.Secs
 				o.Result = &r
+			} else if rs := solveSeeds(workdir, fmt.Sprintf("%s.%d", o.Name, i), q, 2*timeout); rs.Status == "unsat" {
+				rs.Secs += o.Result.Secs + r.Secs
+				o.Result = &rs
 			}
 		}(i, o)
 	}
